@@ -137,6 +137,13 @@ func vfCorpusScan(minSize, maxSize int64) []vfCorpusCand {
 					}
 					for _, m := range hdr.Messages {
 						add(fmt.Sprintf("ohdr-v%d/msg-%#x", hdr.Version, uint16(m.Type)))
+						if uint16(m.Type) == 0x0B {
+							if fp, err := core.ParseFilterPipelineMessage(m.Data); err == nil && fp != nil {
+								for _, fl := range fp.Filters {
+									add(fmt.Sprintf("filter-%d", fl.ID))
+								}
+							}
+						}
 					}
 					if _, ok := obj.(*Dataset); ok {
 						if di, err := core.ReadDatasetInfo(hdr, f.sb); err == nil {
